@@ -132,6 +132,67 @@ Theorem C12_output_ellipsis_only_refuted :
 Proof. exact output_ellipsis_only_refuted. Qed.
 Print Assumptions C12_output_ellipsis_only_refuted.
 
+(* new: the interleaved face of the same class: einsum(x, [0,1], [Ellipsis,1,0]) raises KeyError even
+   with all proposed fixes (no patch proposed for this one) *)
+Theorem C12_interleaved_output_ellipsis_only_refuted :
+  exists ops out, agrees_args_v all_fixes (AInter ops out) = Some false /\ np_out_shape (AInter ops out) = Some [3;2]%Z.
+Proof. exact interleaved_output_ellipsis_only_refuted. Qed.
+Print Assumptions C12_interleaved_output_ellipsis_only_refuted.
+
+(* --- model = NumpySpec: bounded exhaustive form (partial) ------------------------------------
+   FULL STATEMENTS (not proved for unbounded inputs):
+     ellipsis_expansion_matches_numpy / implicit_output_matches_numpy / interleaved_matches_numpy:
+       forall well-formed call a (letters only, no blanks, not output-only-ellipsis),
+         agrees_args_v fx a <> Some false
+   PROVED HERE: the same statement for ALL 18816 calls of a finite family (vm_compute): 1 or 2
+   operands, each `pre [...] post` with pre in {"", "b", "B", "bB"}, post in {"", "b", "a"}, the
+   ellipsis (if any) covering 0, 1 or 2 dimensions -- so ellipses at the start / middle / end,
+   different broadcast ranks (right alignment), repeated labels, upper/lower case ordering -- and
+   8 outputs (implicit, "", "b", "...", "...b", "B...", "a...b", "bB").  What is missing is the
+   induction over arbitrary strings; every generated call of a run is in addition judged by the
+   same function agrees_args_v inside Coq (correspondence K3 of the check). *)
+Theorem C12_ellipsis_expansion_matches_numpy_partial :
+  forallb (fun c => output_only_ellipsis (fst c) (snd c) ||
+                    not_refuted (agrees_args_v no_fixes (sweep_args_str (fst c) (snd c)))) sweep_calls = true.
+Proof. exact sweep_string_pinned. Qed.
+Print Assumptions C12_ellipsis_expansion_matches_numpy_partial.
+
+(* implicit outputs are part of the family (output = None): same sweep with all fixes, no exclusion *)
+Theorem C12_implicit_output_matches_numpy_partial :
+  forallb (fun c => not_refuted (agrees_args_v all_fixes (sweep_args_str (fst c) (snd c)))) sweep_calls = true.
+Proof. exact sweep_string_fixed. Qed.
+Print Assumptions C12_implicit_output_matches_numpy_partial.
+
+(* interleaved form: true of the pinned code when the output sublist is given ... *)
+Theorem C12_interleaved_explicit_matches_numpy_partial :
+  forallb (fun c => match snd c with None => true | Some _ =>
+                      output_only_ellipsis (fst c) (snd c) ||
+                      not_refuted (agrees_args_v no_fixes (sweep_args_inter (fst c) (snd c))) end) sweep_calls = true.
+Proof. exact sweep_inter_explicit_pinned. Qed.
+Print Assumptions C12_interleaved_explicit_matches_numpy_partial.
+
+(* ... and of the code with the proposed fix also without it (implicit output sorted by label) *)
+Theorem C12_interleaved_matches_numpy_fixed_partial :
+  forallb (fun c => output_only_ellipsis (fst c) (snd c) ||
+                    not_refuted (agrees_args_v all_fixes (sweep_args_inter (fst c) (snd c)))) sweep_calls = true.
+Proof. exact sweep_inter_fixed. Qed.
+Print Assumptions C12_interleaved_matches_numpy_fixed_partial.
+
+(* the sweeps are not vacuous: every call of the family that numpy accepts is agreed on *)
+Example C12_sweep_nonvacuous :
+  length sweep_calls = 8 * (48 + 48 * 48) /\
+  length (filter (fun c => is_agree (agrees_args_v all_fixes (sweep_args_str (fst c) (snd c)))) sweep_calls) =
+  length (filter (fun c => match np_parse_args (sweep_args_str (fst c) (snd c)) with Some _ => true | None => false end) sweep_calls).
+Proof. exact sweep_sizes. Qed.
+
+(* the refutation witnesses are repaired by the proposed fixes *)
+Example C12_fixes_repair_witnesses :
+  agrees_args_v all_fixes (AStr w_spaces [[2;3];[3;4]]%Z) = Some true /\
+  agrees_args_v all_fixes (AInter [([4;2]%Z, [IL 5; IL 1]); ([2;3]%Z, [IL 1; IL 2])] None) = Some true /\
+  front_out_shape_v all_fixes (AInter [([4;2]%Z, [IL 5; IL 1]); ([2;3]%Z, [IL 1; IL 2])] None) = Some [3;4]%Z /\
+  agrees_args_v all_fixes (AStr [97;98;45;62;46;46;46;97;98] [[2;3]]%Z) = Some true.
+Proof. exact fixes_repair_witnesses. Qed.
+
 (* --- non-vacuity ---------------------------------------------------------------------------- *)
 (* einsum('a...b,b...', x(2,3,4), y(4,3)): ellipsis in the middle / at the end, implicit output;
    the model agrees with the specification and the network fits the operands *)
